@@ -1557,3 +1557,6 @@ func (m *Machine) NextSeq() int { m.seq++; return m.seq }
 
 // Zero returns the zero value of a type.
 func (m *Machine) Zero(t types.Type) Value { return m.zero(t) }
+
+// Memo returns the unknown conditions decided on the current run: key "pos:why" -> outcome.
+func (c *Choices) Memo() map[string]bool { return c.memo }
